@@ -25,7 +25,7 @@ use std::sync::atomic::{AtomicUsize, Ordering};
 use std::sync::{Arc, Mutex};
 use std::task::{Context, Poll};
 use tokio_stream::Stream;
-use tonic::codec::{BufferSettings, CompressionEncoding, DecodeBuf, Decoder, Streaming};
+use tonic::codec::{BufferSettings, CompressionEncoding, DecodeBuf, Decoder, ProstCodec, Streaming};
 use tonic::{Code, Status};
 use vcommon::body::{noop_waker, Ev, ScriptBody};
 use vcommon::*;
@@ -149,7 +149,61 @@ enum E {
     Pending,
     Data(Vec<u8>),
     Trailers(Vec<(String, Vec<u8>)>),
+    /// a trailers block of n distinct names "x<tag>-<i>" (Gallina: names_hm n tag)
+    BigTrailers(usize, u8),
     Err(i32),
+}
+
+/// which message decoder sits under the stream
+#[derive(Clone, Copy, Debug, PartialEq, Eq)]
+enum Codec {
+    /// raw bytes, fails on payloads starting with 0xFF
+    Raw,
+    /// the real tonic ProstCodec::<TestMsg, TestMsg>::raw_decoder
+    Prost,
+}
+
+#[derive(Clone, PartialEq, prost::Message)]
+struct Inner {
+    #[prost(string, tag = "1")]
+    name: String,
+    #[prost(sint64, tag = "2")]
+    delta: i64,
+}
+#[derive(Clone, PartialEq, prost::Message)]
+struct TestMsg {
+    #[prost(string, tag = "1")]
+    s: String,
+    #[prost(uint64, tag = "2")]
+    n: u64,
+    #[prost(uint32, repeated, tag = "3")]
+    r: Vec<u32>,
+    #[prost(message, optional, tag = "4")]
+    inner: Option<Inner>,
+    #[prost(bytes = "vec", tag = "5")]
+    blob: Vec<u8>,
+    #[prost(message, repeated, tag = "6")]
+    kids: Vec<Inner>,
+    #[prost(message, optional, boxed, tag = "7")]
+    next: Option<Box<TestMsg>>,
+    #[prost(fixed32, tag = "8")]
+    f: u32,
+    #[prost(double, tag = "9")]
+    d: f64,
+}
+/// the decoder's verdict on one payload, computed with prost directly (not through tonic):
+/// Some(canonical re-encoding) or None
+fn decodes(codec: Codec, p: &[u8]) -> Option<Vec<u8>> {
+    match codec {
+        Codec::Raw => {
+            if p.first() == Some(&0xFF) {
+                None
+            } else {
+                Some(p.to_vec())
+            }
+        }
+        Codec::Prost => <TestMsg as prost::Message>::decode(p).ok().map(|m| prost::Message::encode_to_vec(&m)),
+    }
 }
 
 #[derive(Clone, Debug)]
@@ -161,6 +215,7 @@ struct Input {
     evs: Vec<E>,
     /// for a valid stream: the messages it must deliver (then a clean end)
     expect: Option<Vec<Vec<u8>>>,
+    codec: Codec,
 }
 
 impl Input {
@@ -174,8 +229,10 @@ impl Input {
                 E::Pending => json!({"p": 1}),
                 E::Data(d) => json!({"d": hex(d)}),
                 E::Trailers(t) => json!({"t": t.iter().map(|(k, v)| json!([k, hex(v)])).collect::<Vec<_>>()}),
+                E::BigTrailers(n, t) => json!({"bt": [n, t]}),
                 E::Err(c) => json!({"e": c}),
             }).collect::<Vec<_>>(),
+            "codec": if self.codec == Codec::Prost { "prost" } else { "raw" },
             "expect": self.expect.as_ref().map(|m| m.iter().map(|x| hex(x)).collect::<Vec<_>>()),
         })
     }
@@ -202,6 +259,8 @@ impl Input {
                             .map(|kv| (kv[0].as_str().unwrap().to_string(), unhex(kv[1].as_str().unwrap())))
                             .collect(),
                     )
+                } else if let Some(bt) = e.get("bt") {
+                    E::BigTrailers(bt[0].as_u64().unwrap() as usize, bt[1].as_u64().unwrap() as u8)
                 } else {
                     E::Err(e["e"].as_i64().unwrap() as i32)
                 }
@@ -214,10 +273,18 @@ impl Input {
             buffer_size: v["buffer_size"].as_u64().unwrap_or(8192) as usize,
             evs,
             expect: v["expect"].as_array().map(|a| a.iter().map(|x| unhex(x.as_str().unwrap())).collect()),
+            codec: if v["codec"].as_str() == Some("prost") { Codec::Prost } else { Codec::Raw },
         }
     }
 }
 
+fn big_trailers(n: usize, tag: u8) -> HeaderMap {
+    let mut m = HeaderMap::new();
+    for i in 0..n {
+        m.append(HeaderName::from_bytes(format!("x{}-{}", tag, i).as_bytes()).unwrap(), HeaderValue::from_static("v"));
+    }
+    m
+}
 fn trailers_map(t: &[(String, Vec<u8>)]) -> HeaderMap {
     let mut m = HeaderMap::new();
     for (k, v) in t {
@@ -285,6 +352,7 @@ fn coq_ev(e: &E) -> String {
             let v: Vec<(Vec<u8>, Vec<u8>)> = t.iter().map(|(k, v)| (k.as_bytes().to_vec(), v.clone())).collect();
             format!("(BTrailers {})", coq_pairs(&v))
         }
+        E::BigTrailers(n, t) => format!("(BTrailers (names_hm {} {}))", n, t),
         E::Err(c) => format!("(BErr (mkStatus {} [] [] []))", c),
     }
 }
@@ -388,7 +456,11 @@ struct Ran {
     panic: Option<String>,
 }
 
-fn run(inp: &Input, fuel: usize, extra: usize) -> Ran {
+fn drive<T, D>(inp: &Input, fuel: usize, extra: usize, dec: D, to_bytes: fn(T) -> Vec<u8>) -> Ran
+where
+    T: 'static,
+    D: Decoder<Item = T, Error = Status> + Send + 'static,
+{
     let evs: Vec<Ev<Status>> = inp
         .evs
         .iter()
@@ -396,13 +468,14 @@ fn run(inp: &Input, fuel: usize, extra: usize) -> Ran {
             E::Pending => Ev::Pending,
             E::Data(d) => Ev::Data(d.clone()),
             E::Trailers(t) => Ev::Trailers(trailers_map(t)),
+            E::BigTrailers(n, t) => Ev::Trailers(big_trailers(*n, *t)),
             E::Err(c) => Ev::Err(Status::new(Code::from(*c), "scripted body error")),
         })
         .collect();
     let (body, pae) = ScriptBody::new(evs);
+    let pae_out = pae.clone();
     let polls = Arc::new(AtomicUsize::new(0));
     let body = Guard { inner: body, polls: polls.clone(), cap: inp.evs.len() + fuel + extra + 8 };
-    let dec = RawDecoder { bs: BufferSettings::new(inp.buffer_size, 32 * 1024) };
     let enc = inp.enc.map(|e| e.tonic());
     let shared: Arc<Mutex<(Vec<R>, usize, Vec<R>, usize, bool)>> = Arc::new(Mutex::new((vec![], 0, vec![], 0, false)));
     let sh = shared.clone();
@@ -410,18 +483,18 @@ fn run(inp: &Input, fuel: usize, extra: usize) -> Ran {
     let max = inp.max;
     MAX_ALLOC.store(0, Ordering::SeqCst);
     let res = catch(std::panic::AssertUnwindSafe(move || {
-        let mut s: Streaming<Vec<u8>> = match dir {
+        let mut s: Streaming<T> = match dir {
             Dir::Request => Streaming::new_request(dec, body, enc, max),
             Dir::Response(h) => Streaming::new_response(dec, body, http::StatusCode::from_u16(h).unwrap(), enc, max),
             Dir::Empty => Streaming::new_empty(dec, body),
         };
         let w = noop_waker();
         let mut cx = Context::from_waker(&w);
-        let mut poll = |s: &mut Streaming<Vec<u8>>| -> R {
+        let mut poll = |s: &mut Streaming<T>| -> R {
             match Pin::new(s).poll_next(&mut cx) {
                 Poll::Pending => R::Pending,
                 Poll::Ready(None) => R::Done,
-                Poll::Ready(Some(Ok(m))) => R::Ok(m),
+                Poll::Ready(Some(Ok(m))) => R::Ok(to_bytes(m)),
                 Poll::Ready(Some(Err(st))) => R::Err(st.code() as i32),
             }
         };
@@ -445,12 +518,19 @@ fn run(inp: &Input, fuel: usize, extra: usize) -> Ran {
                 let r = poll(&mut s);
                 sh.lock().unwrap().2.push(r);
             }
-            sh.lock().unwrap().3 = pae.load(Ordering::SeqCst);
         }
     }));
     let max_alloc = MAX_ALLOC.load(Ordering::SeqCst);
     let g = shared.lock().unwrap();
-    Ran { max_alloc, t1: g.0.clone(), pae1: g.1, t2: g.2.clone(), pae2: g.3, drained: g.4, panic: res.err() }
+    Ran { max_alloc, t1: g.0.clone(), pae1: g.1, t2: g.2.clone(), pae2: pae_out.load(Ordering::SeqCst), drained: g.4, panic: res.err() }
+}
+
+fn run(inp: &Input, fuel: usize, extra: usize) -> Ran {
+    let bs = BufferSettings::new(inp.buffer_size, 32 * 1024);
+    match inp.codec {
+        Codec::Raw => drive::<Vec<u8>, _>(inp, fuel, extra, RawDecoder { bs }, |m| m),
+        Codec::Prost => drive::<TestMsg, _>(inp, fuel, extra, ProstCodec::<TestMsg, TestMsg>::raw_decoder(bs), |m| prost::Message::encode_to_vec(&m)),
+    }
 }
 
 // ------------------------------------------------------------------ isolation of one case
@@ -612,8 +692,23 @@ fn case(out: &mut Out, kind: &str, inp: &Input) {
     let fuel = inp.evs.len() + frames.len() + 2;
     let extra = data.len().min(40) + 10;
     let ran = run_isolated(inp, fuel, extra);
+    let lim = if inp.dir == Dir::Empty { DEFAULT_LIMIT } else { inp.max.unwrap_or(DEFAULT_LIMIT) };
 
-    // decompression results of the real libraries for every flagged frame of the input
+    // the part of the script a draining caller can reach: up to the first trailers / body error
+    let term_idx = inp.evs.iter().position(|e| matches!(e, E::Trailers(_) | E::BigTrailers(..) | E::Err(_)));
+    let pre_data: Vec<u8> = {
+        let mut v = vec![];
+        for e in &inp.evs[..term_idx.unwrap_or(inp.evs.len())] {
+            if let E::Data(d) = e {
+                v.extend_from_slice(d);
+            }
+        }
+        v
+    };
+    let (frames_pre, leftover_pre) = parse_frames(&pre_data);
+
+    // decompression results of the real libraries for every flagged frame of the input, and
+    // (prost) the decoder's verdict on every payload it could be handed
     let mut ztab: Vec<(u8, Vec<u8>, Option<Vec<u8>>)> = vec![];
     if let Some(e) = inp.enc {
         for (fl, p) in &frames {
@@ -622,15 +717,42 @@ fn case(out: &mut Out, kind: &str, inp: &Input) {
             }
         }
     }
+    // what a frame stands for, judged independently of tonic: None = not a message
+    let frame_value = |f: &(u8, Vec<u8>)| -> Option<Vec<u8>> {
+        if f.1.len() > lim {
+            return None;
+        }
+        match f.0 {
+            0 => decodes(inp.codec, &f.1),
+            1 => inp.enc.and_then(|e| real_decompress(e, &f.1)).and_then(|q| decodes(inp.codec, &q)),
+            _ => None,
+        }
+    };
+    let mut ptab: Vec<(Vec<u8>, Option<Vec<u8>>)> = vec![];
+    if inp.codec == Codec::Prost {
+        for (fl, p) in &frames {
+            let input = match fl {
+                0 => Some(p.clone()),
+                1 => inp.enc.and_then(|e| real_decompress(e, p)),
+                _ => None,
+            };
+            if let Some(i) = input {
+                if !ptab.iter().any(|(q, _)| q == &i) {
+                    let v = decodes(Codec::Prost, &i);
+                    ptab.push((i, v));
+                }
+            }
+        }
+    }
 
     // ---- implementation observable
     let mut t1: Vec<Tr> = ran.t1.iter().map(|r| r.tr()).collect();
-    let impl_obs = if let Some(_) = &ran.panic {
+    let impl_polls = if let Some(_) = &ran.panic {
         // whatever was observed, then the panic marker, in the phase it happened
         if ran.drained {
             let mut t2: Vec<Tr> = ran.t2.iter().map(|r| r.tr()).collect();
             t2.push(R::Panic.tr());
-            Tr::L(vec![Tr::L(t1), Tr::n(ran.pae1 as u64), Tr::L(t2), Tr::n(ran.pae2 as u64)])
+            Tr::L(vec![Tr::L(t1), Tr::n(ran.pae1 as u64), Tr::L(t2)])
         } else {
             let hang = ran.panic.as_deref().map(|p| p.starts_with("HANG") || p.starts_with("ABORT")).unwrap_or(false);
             t1.push(if hang { Tr::L(vec![Tr::n(6u8)]) } else { R::Panic.tr() });
@@ -647,6 +769,8 @@ fn case(out: &mut Out, kind: &str, inp: &Input) {
             Tr::n(ran.pae2 as u64),
         ])
     };
+    // second component: the model checks its Reserve log against the allocation meter (1 = consistent)
+    let impl_obs = Tr::L(vec![impl_polls, Tr::n(1u8)]);
 
     // ---- direct oracle
     let mut why: Option<String> = None;
@@ -655,11 +779,16 @@ fn case(out: &mut Out, kind: &str, inp: &Input) {
             why = Some(s)
         }
     };
+    let n_trailers = inp.evs.iter().filter(|e| matches!(e, E::Trailers(_) | E::BigTrailers(..))).count();
     if let Some(p) = &ran.panic {
         if p.starts_with("HANG") {
             fail(format!("hang: {}", p));
         } else if p.starts_with("ABORT") {
             fail(format!("abort: {}", p));
+        } else if ran.drained && n_trailers >= 2 && p.contains("MAX_SIZE") {
+            // outside the property's inputs: a body that goes on after its trailers, polled again
+            // after the stream had ended, overflows http's HeaderMap (modelled: extend_may_panic)
+            out.hist("panic_outside_domain", "second trailers block overflows HeaderMap::extend, polled past the end");
         } else {
             fail(format!("panic: {}", p));
         }
@@ -676,16 +805,11 @@ fn case(out: &mut Out, kind: &str, inp: &Input) {
     for (i, got) in oks.iter().enumerate() {
         match frames.get(i) {
             None => fail(format!("message {} yielded but the input holds only {} complete frames", i, frames.len())),
-            Some((0, p)) => {
-                if p != *got {
-                    fail(format!("message {} is not the payload of frame {}", i, i));
-                }
-            }
-            Some((1, p)) => match inp.enc.and_then(|e| real_decompress(e, p)) {
-                Some(q) if &q == *got => {}
-                _ => fail(format!("message {} is not the decompressed payload of frame {}", i, i)),
+            Some(f) => match frame_value(f) {
+                Some(v) if &v == *got => {}
+                Some(_) => fail(format!("message {} is not what frame {} (flag {}) stands for", i, i, f.0)),
+                None => fail(format!("message {} yielded from frame {} (flag {}, {} bytes) which is not a message", i, i, f.0, f.1.len())),
             },
-            Some((f, _)) => fail(format!("message {} yielded from a frame with flag {}", i, f)),
         }
     }
     if let Some(exp) = &inp.expect {
@@ -704,7 +828,6 @@ fn case(out: &mut Out, kind: &str, inp: &Input) {
     // memory: nothing larger than what an accepted length (<= limit; twice that for the
     // decompression estimate) plus the received data can justify is ever requested
     {
-        let lim = if inp.dir == Dir::Empty { DEFAULT_LIMIT } else { inp.max.unwrap_or(DEFAULT_LIMIT) };
         let bound = lim
             .saturating_mul(2)
             .saturating_add(data.len() * 4)
@@ -716,21 +839,42 @@ fn case(out: &mut Out, kind: &str, inp: &Input) {
         out.hist("largest_allocation", match ran.max_alloc { 0..=8192 => "<=8KiB", 8193..=65536 => "<=64KiB", 65537..=1048576 => "<=1MiB", 1048577..=8388608 => "<=8MiB", _ => ">8MiB" });
     }
 
-    // truncation: a body made of data only that ends plainly inside a frame must yield an error
-    // before the end of the stream (scripts with trailers or body errors are judged by those).
-    // `--lenient-truncation` switches this part of the oracle off.
-    if !lenient_truncation()
-        && leftover > 0
-        && ran.panic.is_none()
-        && ran.drained
-        && !inp.evs.iter().any(|e| matches!(e, E::Trailers(_) | E::Err(_)))
-        && !ran.t1.iter().any(|r| matches!(r, R::Err(_)))
-    {
-        fail(format!("truncated input: {} bytes of an incomplete frame at the end of the body ended the stream cleanly", leftover));
+    let t1_err = ran.t1.iter().any(|r| matches!(r, R::Err(_)));
+    let t1_oks = ran.t1.iter().filter(|r| matches!(r, R::Ok(_))).count();
+    if ran.panic.is_none() && ran.drained {
+        let terminator = term_idx.map(|i| &inp.evs[i]);
+        // truncation: a body that ends - plainly or with a trailers frame, whatever it carries -
+        // inside a frame must yield an error before the end of the stream
+        // (`--lenient-truncation` switches this clause off)
+        if !lenient_truncation() && leftover_pre > 0 && !matches!(terminator, Some(E::Err(_))) && !t1_err {
+            fail(format!(
+                "truncated input: {} bytes of an incomplete frame {} ended the stream cleanly",
+                leftover_pre,
+                if terminator.is_some() { "followed by a trailers frame" } else { "at the end of the body" }
+            ));
+        }
+        // a body error is reported (except CANCELLED on the request side, which ends the stream)
+        if let Some(E::Err(c)) = terminator {
+            if !(inp.dir == Dir::Request && *c == 1) && !t1_err {
+                fail(format!("body error {} was not reported", c));
+            }
+        }
+        // a hostile COMPLETE frame (illegal flag, flag 1 without encoding, over the limit,
+        // undecompressable, undecodable) is reported right after the messages before it
+        if let Some(i) = frames_pre.iter().position(|f| frame_value(f).is_none()) {
+            if !t1_err || t1_oks != i {
+                fail(format!(
+                    "frame {} (flag {}, {} bytes) is not a message: expected {} messages then an error, got {} messages{}",
+                    i, frames_pre[i].0, frames_pre[i].1.len(), i, t1_oks, if t1_err { " then an error" } else { " and no error" }
+                ));
+            }
+            out.hist("first_hostile_complete_frame", i.min(6));
+        }
     }
 
     // ---- distribution
     let n_data = inp.evs.iter().filter(|e| matches!(e, E::Data(_))).count();
+    out.hist("codec", if inp.codec == Codec::Prost { "prost (real ProstCodec decoder)" } else { "raw bytes" });
     out.hist("direction", match inp.dir { Dir::Request => "request", Dir::Response(_) => "response", Dir::Empty => "empty" });
     out.hist("encoding", inp.enc.map(|e| e.name()).unwrap_or("identity"));
     out.hist("data_chunks", n_data.min(8));
@@ -742,27 +886,39 @@ fn case(out: &mut Out, kind: &str, inp: &Input) {
         Some(usize::MAX) => "usize::MAX".to_string(),
         Some(_) => "tight (largest message + 0..100)".to_string(),
     });
-    let outcome = if ran.panic.is_some() { "panic" } else if !ran.drained { "hang" } else if ran.t1.iter().any(|r| matches!(r, R::Err(_))) {
+    let outcome = if ran.panic.is_some() { "panic" } else if !ran.drained { "hang" } else if t1_err {
         match ran.t1.iter().find_map(|r| if let R::Err(c) = r { Some(*c) } else { None }) { Some(13) => "err-internal", Some(11) => "err-out-of-range", _ => "err-other" }
     } else { "clean-end" };
     out.hist("outcome", outcome);
     out.hist("ok_messages", oks.len().min(8));
     out.hist("pending_events", inp.evs.iter().filter(|e| matches!(e, E::Pending)).count().min(6));
-    // input cut inside a frame, yet the stream ended cleanly
-    if leftover > 0 && outcome == "clean-end" {
-        let ends_plain = !inp.evs.iter().any(|e| matches!(e, E::Trailers(_) | E::Err(_)));
-        out.hist("truncated_input_clean_end", if ends_plain { "plain end of body (must not happen)" } else { "script has trailers or a body error (not judged)" });
+    if leftover_pre > 0 {
+        out.hist("truncated_input", match term_idx.map(|i| &inp.evs[i]) {
+            None => "then plain end of body (judged: must end with an error)",
+            Some(E::Err(1)) if inp.dir == Dir::Request => "then CANCELLED on the request side (clean end by design, not judged)",
+            Some(E::Err(_)) => "then a body error (judged: the error is reported)",
+            Some(_) => "then a trailers frame (judged: must end with an error)",
+        });
     }
+    let _ = leftover;
 
     let model = format!(
-        "obs_decode {} {} {} {} {} {} {}",
+        "obs_case {} {} {} {} {} {} {} {} {} {} {}",
+        if inp.codec == Codec::Prost {
+            format!("(Some {})", coq_list(&ptab, |(p, r)| format!("({},{})", coq_bytes_seg(p), coq_opt(r, |x| coq_bytes_seg(x)))))
+        } else {
+            "None".to_string()
+        },
         coq_dir(inp.dir),
         coq_opt(&inp.enc, |e| e.num().to_string()),
         coq_opt(&inp.max, |m| m.to_string()),
         coq_list(&ztab, |(e, p, r)| format!("({},{},{})", e, coq_bytes_seg(p), coq_opt(r, |x| coq_bytes_seg(x)))),
         coq_list(&inp.evs, coq_ev),
         fuel,
-        extra
+        extra,
+        ran.max_alloc,
+        data.len(),
+        inp.buffer_size
     );
     let nontrivial = data.len() >= 5 && (n_data >= 2 || inp.expect.is_none());
     out.push(Case { kind: kind.to_string(), input: inp.to_json(), model, impl_obs, oracle: why, nontrivial });
@@ -1058,6 +1214,136 @@ fn mutate(r: &mut Rng, enc: Option<Enc>, wire: &[u8]) -> (Vec<u8>, &'static str)
     }
 }
 
+// ------------------------------------------------------------------ prost payloads
+fn varint(mut v: u64) -> Vec<u8> {
+    let mut o = vec![];
+    loop {
+        let b = (v & 0x7f) as u8;
+        v >>= 7;
+        if v == 0 {
+            o.push(b);
+            return o;
+        }
+        o.push(b | 0x80);
+    }
+}
+fn gen_testmsg(r: &mut Rng, depth: u32) -> TestMsg {
+    let strs = ["", "x", "hello", "gr\u{fc}\u{df}e", "a longer string with spaces and \u{2603}"];
+    TestMsg {
+        s: r.pick(&strs).to_string(),
+        n: *r.pick(&[0u64, 1, 127, 128, 300, u64::MAX]),
+        r: (0..r.below(4)).map(|_| r.next() as u32 >> r.below(32)).collect(),
+        inner: if r.chance(1, 2) { Some(Inner { name: r.pick(&strs).to_string(), delta: *r.pick(&[0i64, -1, 63, -64, i64::MIN]) }) } else { None },
+        blob: { let n = r.below(6) as usize; r.bytes(n) },
+        kids: (0..r.below(3)).map(|_| Inner { name: "k".into(), delta: r.next() as i64 }).collect(),
+        next: if depth > 0 && r.chance(1, 3) { Some(Box::new(gen_testmsg(r, depth - 1))) } else { None },
+        f: if r.chance(1, 2) { 0 } else { r.next() as u32 },
+        d: *r.pick(&[0.0f64, 1.5, -2.25, f64::MAX]),
+    }
+}
+/// `levels` nested field-7 sub-messages (prost stops at its recursion limit of 100)
+fn nested(levels: usize) -> Vec<u8> {
+    let mut p = vec![0x10, 0x07]; // innermost: n = 7
+    for _ in 0..levels {
+        let mut q = vec![0x3a];
+        q.extend(varint(p.len() as u64));
+        q.extend(p);
+        p = q;
+    }
+    p
+}
+/// a payload for the prost decoder: valid encodings and hostile byte strings
+fn gen_prost_payload(r: &mut Rng) -> (Vec<u8>, &'static str) {
+    let valid = prost::Message::encode_to_vec(&gen_testmsg(r, 2));
+    match r.below(16) {
+        0 | 1 => (valid, "valid"),
+        2 => {
+            let n = r.range(1, 30) as usize;
+            (r.bytes(n), "random-bytes")
+        }
+        3 => {
+            let mut v = valid;
+            if !v.is_empty() {
+                let n = r.below(v.len() as u64) as usize;
+                v.truncate(n);
+            }
+            (v, "truncated-encoding")
+        }
+        4 => {
+            let mut v = valid;
+            if v.is_empty() {
+                v.push(0x08);
+            }
+            let i = r.below(v.len() as u64) as usize;
+            v[i] ^= 1 << r.below(8);
+            (v, "bit-flip")
+        }
+        5 => (r.pick(&[vec![0x08u8, 0xff, 0xff], vec![0x10, 0x80], vec![0x0a, 0x80], vec![0x80]]).clone(), "truncated-varint"),
+        6 => {
+            let mut v = vec![0x10u8];
+            v.extend(vec![0xffu8; r.range(10, 12) as usize]);
+            v.push(0x01);
+            (v, "overlong-varint")
+        }
+        7 => {
+            // wire types 3, 4 (groups), 6, 7 and field number 0
+            let t = *r.pick(&[0x0bu8, 0x0c, 0x0e, 0x0f, 0x00, 0x03, 0x07, 0x4b]);
+            let mut v = vec![t];
+            let n = r.below(4) as usize;
+            v.extend(r.bytes(n));
+            (v, "bad-wire-type")
+        }
+        8 => (r.pick(&[vec![0x08u8, 0x01], vec![0x12, 0x01, 0x00], vec![0x0d, 1, 2, 3, 4], vec![0x22, 0x02, 0x08, 0x01], vec![0x45, 0, 0]]).clone(), "wrong-type-for-field"),
+        9 => (r.pick(&[vec![0x0au8, 0x02, 0xff, 0xfe], vec![0x0a, 0x01, 0xc0], vec![0x22, 0x04, 0x0a, 0x02, 0xed, 0xa0]]).clone(), "invalid-utf8"),
+        10 => (r.pick(&[vec![0x0au8, 0x05, 0x61], vec![0x2a, 0xff, 0xff, 0xff, 0xff, 0x0f], vec![0x1a, 0x03, 0x01], vec![0x2a, 0xff, 0xff, 0xff, 0xff, 0xff, 0xff, 0xff, 0xff, 0xff, 0x01, 0x00]]).clone(), "length-beyond-buffer"),
+        11 => (nested(*r.pick(&[99usize, 100, 101, 150, 400])), "deep-nesting"),
+        12 => (nested(*r.pick(&[1usize, 10, 60, 98])), "nesting-within-limit"),
+        13 => {
+            // unknown fields of every wire type, then a known one
+            let mut v = vec![0xf8u8, 0x01, 0x05, 0xf9, 0x01];
+            v.extend([0u8; 8]);
+            v.extend([0xfa, 0x01, 0x02, 0xaa, 0xbb, 0xfd, 0x01, 1, 2, 3, 4, 0x10, 0x2a]);
+            (v, "unknown-fields")
+        }
+        14 => {
+            let mut v = valid.clone();
+            v.extend(valid);
+            (v, "concatenated-encodings")
+        }
+        _ => (vec![], "empty"),
+    }
+}
+fn gen_prost_case(r: &mut Rng) -> (Input, &'static str) {
+    let enc = if r.chance(1, 3) { Some(*r.pick(&ENCS)) } else { None };
+    let mut wire = vec![];
+    let mut name = "valid";
+    let mut all_valid = true;
+    let mut expect = vec![];
+    let n = r.range(1, 4);
+    for _ in 0..n {
+        let (p, nm) = if r.chance(1, 2) { (prost::Message::encode_to_vec(&gen_testmsg(r, 2)), "valid") } else { gen_prost_payload(r) };
+        if nm != "valid" {
+            name = nm;
+        }
+        match decodes(Codec::Prost, &p) {
+            Some(c) if all_valid => expect.push(c),
+            _ => all_valid = false,
+        }
+        match enc {
+            Some(e) if r.chance(1, 2) => wire.extend(frame(1, &real_compress(e, &p))),
+            _ => wire.extend(frame(0, &p)),
+        }
+    }
+    let cuts = random_cuts(r, wire.len());
+    let chunks = if wire.is_empty() { vec![] } else { cut_at(&wire, &cuts) };
+    let pend = *r.pick(&[0u64, 0, 1]);
+    let mut evs = chunks_to_events(r, chunks, pend);
+    let dir = *r.pick(&[Dir::Request, Dir::Response(200), Dir::Request]);
+    gen_ending(r, &mut evs, all_valid, dir);
+    let inp = Input { codec: Codec::Prost, dir, enc, max: None, buffer_size: gen_buffer_size(r), evs, expect: if all_valid { Some(expect) } else { None } };
+    (inp, name)
+}
+
 fn main() {
     if std::env::args().any(|a| a == "--worker") {
         worker_main();
@@ -1076,7 +1362,7 @@ fn main() {
         return;
     }
 
-    let base = |dir, enc, max, evs: Vec<E>, expect| Input { dir, enc, max, buffer_size: 8192, evs, expect };
+    let base = |dir, enc, max, evs: Vec<E>, expect| Input { codec: Codec::Raw, dir, enc, max, buffer_size: 8192, evs, expect };
 
     // ---------------- corpus: witnesses of the fixed findings, hand-picked edges -------------
     let fa = frame(0, b"A");
@@ -1102,6 +1388,22 @@ fn main() {
         for d in [Dir::Request, Dir::Response(200)] {
             case(&mut out, "corpus.F-C07d", &base(d, None, None, vec![E::Data(b.clone())], None));
         }
+        // F-C07f: a message cut short, then a trailers frame
+        for d in [Dir::Request, Dir::Response(200)] {
+            for data in [vec![0u8, 0, 0, 0, 5, 1, 2], vec![0, 0, 0, 0, 5], vec![0, 0, 0], { let mut v = fa.clone(); v.extend([1, 0, 0]); v }] {
+                case(&mut out, "corpus.F-C07f", &base(d, None, None, vec![E::Data(data.clone()), E::Trailers(tr(OK_TRAILERS))], None));
+                case(&mut out, "corpus.F-C07f", &base(d, None, None, vec![E::Data(data.clone()), E::Pending, E::Trailers(tr(&[("grpc-status", b"5")]))], None));
+                case(&mut out, "corpus.F-C07f", &base(d, None, None, vec![E::Data(data.clone()), E::Trailers(vec![])], None));
+                case(&mut out, "corpus.F-C07f", &base(d, None, None, vec![E::Data(data.clone()), E::Err(1)], None));
+            }
+        }
+        // HeaderMap::extend on a second trailers block (only reachable by polling past the end)
+        case(&mut out, "corpus.trailers-capacity", &base(Dir::Request, None, None, vec![E::BigTrailers(24576, 1), E::BigTrailers(1, 2)], None));
+        if a.thorough {
+            case(&mut out, "corpus.trailers-capacity", &base(Dir::Request, None, None, vec![E::BigTrailers(24000, 1), E::BigTrailers(500, 2)], None));
+        }
+        case(&mut out, "corpus.trailers-capacity", &base(Dir::Request, None, None, vec![E::BigTrailers(2000, 1), E::BigTrailers(300, 2)], None));
+        case(&mut out, "corpus.trailers-capacity", &base(Dir::Request, None, None, vec![E::Data(fa.clone()), E::BigTrailers(300, 1), E::BigTrailers(300, 1), E::Data(fb.clone())], None));
         // edges
         for d in [Dir::Request, Dir::Response(200), Dir::Response(500), Dir::Empty] {
             case(&mut out, "corpus.edge", &base(d, None, None, vec![], None));
@@ -1172,7 +1474,7 @@ fn main() {
                     let cuts = if r.chance(1, 2) { random_cuts(&mut r, wire.len()) } else { vec![] };
                     let evs: Vec<E> = cut_at(&wire, &cuts).into_iter().map(E::Data).collect();
                     let dir = if pos % 2 == 0 { Dir::Request } else { Dir::Response(200) };
-                    let inp = Input { dir, enc: None, max: *l, buffer_size: 8192, evs, expect: if ok { Some(msgs) } else { None } };
+                    let inp = Input { codec: Codec::Raw, dir, enc: None, max: *l, buffer_size: 8192, evs, expect: if ok { Some(msgs) } else { None } };
                     case(&mut out, "limit", &inp);
                 }
             }
@@ -1201,7 +1503,7 @@ fn main() {
             // every single cut (covers every position inside every prefix and payload)
             for c in 1..wire.len() {
                 let evs: Vec<E> = cut_at(wire, &[c]).into_iter().map(E::Data).collect();
-                case(&mut out, "valid.single-cut", &Input { dir: Dir::Request, enc: *enc, max: None, buffer_size: 8192, evs, expect: Some(msgs.clone()) });
+                case(&mut out, "valid.single-cut", &Input { codec: Codec::Raw, dir: Dir::Request, enc: *enc, max: None, buffer_size: 8192, evs, expect: Some(msgs.clone()) });
             }
             // byte by byte, with a Pending between all bytes
             let mut evs = vec![];
@@ -1210,14 +1512,14 @@ fn main() {
                 evs.push(E::Pending);
             }
             evs.push(E::Trailers(tr(OK_TRAILERS)));
-            case(&mut out, "valid.bytewise", &Input { dir: Dir::Response(200), enc: *enc, max: None, buffer_size: 1, evs, expect: Some(msgs.clone()) });
+            case(&mut out, "valid.bytewise", &Input { codec: Codec::Raw, dir: Dir::Response(200), enc: *enc, max: None, buffer_size: 1, evs, expect: Some(msgs.clone()) });
             // truncation at every byte: plain end, and trailers
             for n in 0..wire.len() {
                 let evs = vec![E::Data(wire[..n].to_vec())];
-                case(&mut out, "mutated.truncate-every-byte", &Input { dir: Dir::Request, enc: *enc, max: None, buffer_size: 8192, evs, expect: None });
+                case(&mut out, "mutated.truncate-every-byte", &Input { codec: Codec::Raw, dir: Dir::Request, enc: *enc, max: None, buffer_size: 8192, evs, expect: None });
                 if a.thorough || n % 3 == 0 {
                     let evs = vec![E::Data(wire[..n].to_vec()), E::Trailers(tr(OK_TRAILERS))];
-                    case(&mut out, "mutated.truncate-every-byte", &Input { dir: Dir::Response(200), enc: *enc, max: None, buffer_size: 8192, evs, expect: None });
+                    case(&mut out, "mutated.truncate-every-byte", &Input { codec: Codec::Raw, dir: Dir::Response(200), enc: *enc, max: None, buffer_size: 8192, evs, expect: None });
                 }
             }
             // a body error injected at every position of the byte-wise script
@@ -1226,7 +1528,7 @@ fn main() {
                 let mut evs: Vec<E> = wire[..at].iter().map(|b| E::Data(vec![*b])).collect();
                 evs.push(E::Err(*r.pick(&[1, 14, 13, 4])));
                 evs.extend(wire[at..].iter().map(|b| E::Data(vec![*b])));
-                case(&mut out, "mutated.body-error-every-position", &Input { dir: if at % 2 == 0 { Dir::Request } else { Dir::Response(200) }, enc: *enc, max: None, buffer_size: 8192, evs, expect: None });
+                case(&mut out, "mutated.body-error-every-position", &Input { codec: Codec::Raw, dir: if at % 2 == 0 { Dir::Request } else { Dir::Response(200) }, enc: *enc, max: None, buffer_size: 8192, evs, expect: None });
             }
         }
         // all chunkings of a short body (thorough: 2^(n-1) for n = 12; quick: n = 8)
@@ -1243,7 +1545,7 @@ fn main() {
             let cuts: Vec<usize> = (1..n).filter(|i| mask & (1 << (i - 1)) != 0).collect();
             let evs: Vec<E> = cut_at(&w, &cuts).into_iter().map(E::Data).collect();
             let expect = if a.thorough { Some(m.clone()) } else { None };
-            case(&mut out, "valid.all-chunkings", &Input { dir: Dir::Request, enc: None, max: None, buffer_size: 8192, evs, expect });
+            case(&mut out, "valid.all-chunkings", &Input { codec: Codec::Raw, dir: Dir::Request, enc: None, max: None, buffer_size: 8192, evs, expect });
         }
     }
 
@@ -1276,13 +1578,13 @@ fn main() {
             wire.extend(frame(0, b"last"));
             let cuts = vec![3, 11, 12 + (wire.len() - 12) / 2];
             let evs: Vec<E> = cut_at(&wire, &cuts).into_iter().map(E::Data).collect();
-            let inp = Input { dir: Dir::Request, enc: Some(e), max: None, buffer_size: bs, evs, expect: Some(vec![b"first".to_vec(), m, b"last".to_vec()]) };
+            let inp = Input { codec: Codec::Raw, dir: Dir::Request, enc: Some(e), max: None, buffer_size: bs, evs, expect: Some(vec![b"first".to_vec(), m, b"last".to_vec()]) };
             case(&mut out, "valid.large-compressed", &inp);
         }
     }
 
     // ---------------- random valid streams --------------------------------------------------
-    let (n_valid, n_mut, n_raw) = if a.thorough { (7000, 13000, 5000) } else { (500, 900, 300) };
+    let (n_valid, n_mut, n_raw) = if a.thorough { (7000, 11000, 4000) } else { (500, 900, 300) };
     for _ in 0..n_valid * a.scale {
         let enc = if r.chance(1, 2) { Some(*r.pick(&ENCS)) } else { None };
         let (msgs, wire) = gen_valid(&mut r, enc, 6);
@@ -1310,7 +1612,7 @@ fn main() {
         let (frames, _) = parse_frames(&wire);
         let wire_big = frames.iter().map(|(_, p)| p.len()).max().unwrap_or(0);
         let max = if dir == Dir::Empty { None } else { max.map(|m| m.max(wire_big)) };
-        let inp = Input { dir, enc, max, buffer_size: gen_buffer_size(&mut r), evs, expect: Some(msgs) };
+        let inp = Input { codec: Codec::Raw, dir, enc, max, buffer_size: gen_buffer_size(&mut r), evs, expect: Some(msgs) };
         case(&mut out, "valid.random", &inp);
     }
 
@@ -1344,8 +1646,30 @@ fn main() {
             _ => None,
         };
         let (enc_decl, max) = if dir == Dir::Empty { (None, None) } else { (enc_decl, max) };
-        let inp = Input { dir, enc: enc_decl, max, buffer_size: gen_buffer_size(&mut r), evs, expect: None };
+        let inp = Input { codec: Codec::Raw, dir, enc: enc_decl, max, buffer_size: gen_buffer_size(&mut r), evs, expect: None };
         case(&mut out, &format!("mutated.{}", name), &inp);
+    }
+
+    // ---------------- the real prost decoder under hostile payloads ---------------------------
+    {
+        // every hostile shape at least once, unchunked, then random streams
+        let mut rr = Rng::new(a.seed ^ 0x9057);
+        for _ in 0..(if a.thorough { 400 } else { 120 }) {
+            let (p, nm) = gen_prost_payload(&mut rr);
+            for e in [None, Some(Enc::Gzip)] {
+                let w = match e {
+                    Some(e) => frame(1, &real_compress(e, &p)),
+                    None => frame(0, &p),
+                };
+                let expect = decodes(Codec::Prost, &p).map(|c| vec![c]);
+                let inp = Input { codec: Codec::Prost, dir: Dir::Request, enc: e, max: None, buffer_size: 8192, evs: vec![E::Data(w)], expect };
+                case(&mut out, &format!("prost.single.{}", nm), &inp);
+            }
+        }
+        for _ in 0..(if a.thorough { 3000 } else { 400 }) * a.scale {
+            let (inp, nm) = gen_prost_case(&mut r);
+            case(&mut out, &format!("prost.{}", nm), &inp);
+        }
     }
 
     // ---------------- raw bytes --------------------------------------------------------------
@@ -1364,7 +1688,7 @@ fn main() {
         let dir = gen_dir(&mut r);
         gen_ending(&mut r, &mut evs, false, dir);
         let enc = if dir == Dir::Empty { None } else { enc };
-        let inp = Input { dir, enc, max: None, buffer_size: gen_buffer_size(&mut r), evs, expect: None };
+        let inp = Input { codec: Codec::Raw, dir, enc, max: None, buffer_size: gen_buffer_size(&mut r), evs, expect: None };
         case(&mut out, "raw.random-bytes", &inp);
     }
 
